@@ -8,7 +8,8 @@ Five case families (field "k"):
           a per-call style                                      -> validates the pastel model
   bad     small malformed stream (unbalanced / wrongly nested tags, invalid colours): model and
           pastel must agree on ValueError; the oracle demands nothing (outside the quantifier)
-  sgr     the style table 10 fg x 10 bg x 2^7 attributes through the three ways of supplying a style
+  sgr     the style table 10 fg x 10 bg x 2^7 attributes through the three ways of supplying a style; route "ctag":
+          passed for a single call while its tag denotes something else in the formatter (registered, built in, unknown)
   write   every writing method of IO / Output / SectionOutput x formatter x indentation 0..4 x texts
   scopes  programs of nested indentation scopes (io / output / error output, set / increment,
           normal exit, exception, exception caught further out)
@@ -46,13 +47,18 @@ REQUIRED_THEOREMS = ["Clikit.Props.C11." + n for n in (
     "sgr_exact", "strip_eq_plain", "balanced_text", "plain_no_escape", "line_methods_newline",
     "indent_lines", "indent_lines_rendered", "scope_restores", "message_strip_eq_plain", "message_balanced",
     "io_delegates", "balanced_decides", "message_ok_decides", "balanced_text_decided", "message_balanced_decided",
-    "indent_lines_rendered_decided", "spec_codes_decides", "sgr_exact_decided")]
+    "indent_lines_rendered_decided", "spec_codes_decides", "sgr_exact_decided", "sgr_call_ignores_registered_tag")]
 RULE = ("msg: random ASTs (depth <= 4) over named styles of the default style set (any case), inline "
         "fg/bg/options specs, unknown tags, text over ASCII, '<' '>' '/', newline, non-ASCII incl. the four "
         "non-ASCII letters Python's case-insensitive [a-z] admits; non-trivial = at least one style node, distinct "
         "by raw message + stack + per-call style. sgr: the full product 10 fg x 10 bg x 128 attribute sets x "
         "{registered tag, add_style, per-call} in the thorough tier (exhaustive), a deterministic 1/8 slice plus "
-        "all single-attribute styles in the quick tier; non-trivial = some colour or attribute set. write: full "
+        "all single-attribute styles in the quick tier; non-trivial = some colour or attribute set. sgr/ctag: the "
+        "styles of the table passed for a SINGLE CALL while carrying a TAG - a different style registered under the "
+        "tag (style set / add_style; differing in the foreground or in one attribute), the same Style object adjusted "
+        "after its registration, a tag of the default style set, a pastel built-in tag, an unknown tag - through "
+        "AnsiFormatter.format / Output.format / IO.format (every style with one combination, thorough: styles with "
+        "<= 1 attribute with all 21 combinations); msg: the per-call style carries such a tag in 4 of 5 cases. write: full "
         "product object x method x formatter {ansi forced, ansi unforced, plain, null} x indent 0..4 x fixed "
         "multi-line texts (+ random ASTs in the thorough tier); non-trivial = indent > 0 or a line method. "
         "scopes: every chain of scopes of depth <= 3 (thorough: 4) over target {io,out,err} x {set,increment} x "
@@ -81,6 +87,9 @@ ASSUMPTIONS = [
     "indent_lines_rendered (formatting keeps every line's indentation) is proved for the formatter entry points "
     "on backslash-free text; that Output.write hands exactly the indented text to them is indent_lines",
     "streams are BufferedOutputStreams (no ANSI capability of their own); decoration is forced by the formatter",
+    "a style passed for a single call is rendered with its own colours and attributes also when its tag is registered "
+    "with others (sgr_call_ignores_registered_tag; the registry of a formatter holds converted snapshots): compared on "
+    "the style table through AnsiFormatter.format, Output.format and IO.format",
 ]
 BUDGET_S = {"quick": 80, "thorough": 780}
 BATCH = 6000
@@ -393,9 +402,49 @@ def sgr_case(i):
     return {"k": "sgr", "fg": fg, "bg": bg, "attrs": [a for k, a in enumerate(ATTRS) if bits >> k & 1], "route": route}
 
 
+# a style passed for a SINGLE CALL that carries a TAG: how the tag is known to the formatter the call goes to
+#   set / add            a DIFFERENT style is registered under the tag (style set / add_style), the call passes a fresh one
+#   same_set / same_add  the SAME Style object was registered and is adjusted afterwards (the registration is a snapshot)
+#   default / builtin    the tag of a style of the default style set / of one pastel registers itself
+#   unregistered         a tag nobody knows
+# "via": the entry point that takes the style (AnsiFormatter.format, Output.format, IO.format)
+CTAG_HOW = ["set", "add", "same_set", "same_add", "default", "builtin", "unregistered"]
+CTAG_VIA = ["formatter", "output", "io"]
+BUILTIN_TAGS = ["error", "info", "comment", "question"]
+
+
+def ctag_case(j, combo):
+    """style j of the table passed for a single call, tagged; `reg`: the style registered under the tag, which
+    differs from the passed one in the foreground colour or in exactly one attribute"""
+    c = sgr_case(3 * j)
+    how, via = CTAG_HOW[combo % len(CTAG_HOW)], CTAG_VIA[(combo // len(CTAG_HOW)) % len(CTAG_VIA)]
+    c.update(route="ctag", how=how, via=via)
+    if how in ("set", "add", "same_set", "same_add"):
+        c["tag"] = "zz"
+        if j % 2 == 0:
+            c["reg"] = {"fg": TABLE_COLORS[(TABLE_COLORS.index(c["fg"]) + 3) % 10], "bg": c["bg"], "attrs": list(c["attrs"])}
+        else:
+            a = ATTRS[(j // 2) % len(ATTRS)]
+            c["reg"] = {"fg": c["fg"], "bg": c["bg"], "attrs": sorted(set(c["attrs"]) ^ {a}, key=ATTRS.index)}
+    else:
+        c["reg"] = None
+        c["tag"] = {"default": NAMED[j % len(NAMED)], "builtin": BUILTIN_TAGS[j % 4], "unregistered": "nobody"}[how]
+    return c
+
+
 def generate(tier, rng):
     thorough = tier == "thorough"
     seed_shift = rng.randrange(8)
+    # ---- single-call styles that carry a tag (registered with other attributes, built in, unknown)
+    ncombo = len(CTAG_HOW) * len(CTAG_VIA)
+    for j in range(10 * 10 * 128):
+        few = len(sgr_case(3 * j)["attrs"]) <= 1
+        if thorough or (j + seed_shift) % 8 == 0 or few:
+            bits = j % 128
+            yield ctag_case(j, (bits + 5 * (j // 128) + seed_shift) % ncombo)
+            if thorough and few:
+                for combo in range(ncombo):
+                    yield ctag_case(j, combo)
     # ---- style table
     for i in range(10 * 10 * 128 * 3):
         c = sgr_case(i)
@@ -455,6 +504,11 @@ def generate(tier, rng):
     for _ in range(400000 if thorough else 25000):
         pre = [rng.choice(NAMED) for _ in range(rng.choice([0, 0, 0, 0, 1, 2]))]
         style = rng.choice(STYLE_POOL) if rng.random() < 0.25 else None
+        if style is not None:
+            # the style of the call may carry a tag: registered (default style set), unknown, none
+            tag = rng.choice([None, None, "nobody"] + NAMED)
+            if tag is not None:
+                style = dict(style, tag=tag)
         yield {"k": "msg", "ast": gen_nodes(rng, 4, 4), "pre": pre, "style": style}
 
 
@@ -514,7 +568,7 @@ def _run_msg(case):
     from clikit.formatter import AnsiFormatter, PlainFormatter
     raw = raw_of(case["ast"])
     pre = "".join("<%s>" % t for t in case["pre"])
-    style = _style_obj(case["style"]) if case["style"] is not None else None
+    style = _style_obj(case["style"], case["style"].get("tag")) if case["style"] is not None else None
     try:
         af, pf = AnsiFormatter(forced=True), PlainFormatter()
         if pre:
@@ -549,10 +603,48 @@ def _run_bad(case):
 SGR_TEXT = "Tx"
 
 
+def _adjust(st, spec):
+    """bring an existing Style object to `spec` through its public setters"""
+    st.fg(spec.get("fg"))
+    st.bg(spec.get("bg"))
+    for a in ATTRS:
+        getattr(st, a)(a in spec["attrs"])
+    return st
+
+
+def _run_ctag(case):
+    from clikit.formatter import AnsiFormatter, PlainFormatter
+    from clikit.api.formatter import StyleSet
+    from clikit.api.io import Output
+    from clikit.io.buffered_io import BufferedIO
+    from clikit.io.output_stream import BufferedOutputStream
+    how, via, tag = case["how"], case["via"], case["tag"]
+
+    def go(cls, kw):
+        reg = _style_obj(case["reg"], tag) if case["reg"] is not None else None
+        if how in ("set", "same_set"):
+            f = cls(StyleSet([reg]), **kw)
+        elif how == "builtin":
+            f = cls(StyleSet([]), **kw)
+        else:
+            f = cls(**kw)
+            if reg is not None:
+                f.add_style(reg)
+        st = _adjust(reg, case) if how.startswith("same") else _style_obj(case, tag)
+        if via == "formatter":
+            return {"out": f.format(SGR_TEXT, st)}
+        if via == "output":
+            return {"out": Output(BufferedOutputStream(), f).format(SGR_TEXT, st)}
+        return {"out": BufferedIO(formatter=f).format(SGR_TEXT, style=st)}
+    return {"ansi": _guard(lambda: go(AnsiFormatter, {"forced": True})), "plain": _guard(lambda: go(PlainFormatter, {}))}
+
+
 def _run_sgr(case):
     from clikit.formatter import AnsiFormatter, PlainFormatter
     from clikit.api.formatter import StyleSet
     route = case["route"]
+    if route == "ctag":
+        return _run_ctag(case)
 
     def go(cls, kw):
         if route == "call":
@@ -717,12 +809,18 @@ def model_requests(case):
         raw = raw_of(case["ast"])
         tab = _table(raw)
         base = {"m": "c11.render", "msg": raw, "table": tab, "stack": case["pre"]}
-        style = _style_json(case["style"]) if case["style"] is not None else None
+        style = _style_json(case["style"], case["style"].get("tag")) if case["style"] is not None else None
         # "wf": the hypotheses of the message theorems (clean, balanced), decided by the model on this message
         return [dict(base, mode="ansi", style=style), dict(base, mode="plain", style=None, wf=True)]
     if k == "bad":
         base = {"m": "c11.render", "msg": case["msg"], "table": _table(case["msg"]), "stack": [], "style": None}
         return [dict(base, mode="ansi"), dict(base, mode="plain")]
+    if k == "sgr" and case["route"] == "ctag":
+        r = _style_json(case, case["tag"])
+        r.update({"m": "c11.sgr", "text": SGR_TEXT, "route": "ctag",
+                  "base": "pastel" if case["how"] in ("set", "same_set", "builtin") else "default",
+                  "reg": _style_json(case["reg"], case["tag"]) if case["reg"] is not None else None})
+        return [r]
     if k == "sgr":
         r = _style_json(case, "zz")
         r.update({"m": "c11.sgr", "text": SGR_TEXT, "route": case["route"]})
@@ -1028,6 +1126,9 @@ def nontrivial_key(case, obs):
     if k == "sgr":
         if not (case["fg"] or case["bg"] or case["attrs"]):
             return None
+        if case["route"] == "ctag":
+            return "s%s/%s/%s/ctag/%s/%s/%s/%s" % (case["fg"], case["bg"], ",".join(case["attrs"]), case["how"],
+                                                   case["via"], case["tag"], _h(repr(case["reg"])))
         return "s%s/%s/%s/%s" % (case["fg"], case["bg"], ",".join(case["attrs"]), case["route"])
     if k == "write":
         if case["indent"] == 0 and case["method"] not in LINE_METHODS:
@@ -1054,6 +1155,8 @@ def bucket(case, obs):
     if k == "bad":
         return "bad:%s" % ("ValueError" if "err" in obs.get("plain", {}) else "accepted")
     if k == "sgr":
+        if case["route"] == "ctag":
+            return "sgr:ctag:%s:%s" % (case["how"], case["via"])
         return "sgr:%s:attrs=%d" % (case["route"], len(case["attrs"]))
     if k == "write":
         return "write:%s.%s:%s" % (case["obj"], case["method"], case["fmt"])
@@ -1143,7 +1246,15 @@ def shrink(case):
 
 def neighbours(case):
     k = case["k"]
-    if k == "sgr":
+    if k == "sgr" and case["route"] == "ctag":
+        for a in ATTRS:
+            yield dict(case, attrs=sorted(set(case["attrs"]) ^ {a}, key=ATTRS.index))
+        for c in TABLE_COLORS:
+            yield dict(case, fg=c)
+            yield dict(case, bg=c)
+        for via in CTAG_VIA:
+            yield dict(case, via=via)
+    elif k == "sgr":
         for r in ("tag", "add", "call"):
             for a in ATTRS:
                 yield dict(case, route=r, attrs=sorted(set(case["attrs"]) ^ {a}, key=ATTRS.index))
@@ -1162,6 +1273,8 @@ def neighbours(case):
         for st in STYLE_POOL:
             yield dict(case, style=st)
             yield {"k": "msg", "ast": [["t", "T"]], "pre": [], "style": st}
+            for tag in ("nobody", "error", "b"):
+                yield {"k": "msg", "ast": [["t", "T"]], "pre": [], "style": dict(st, tag=tag)}
         for t in NAMED:
             yield dict(case, pre=[t])
             yield {"k": "msg", "ast": [["s", t, t, [["t", "a\nb"]], {"name": t}]], "pre": [], "style": None}
